@@ -49,7 +49,15 @@ FORMS = ["plain", "inplace(a)", "out=Tensor", "out=ndarray", "where=,out=ndarray
 
 # ------------------------------------------------------------------------------------------ operands
 
-SCALARS = {"S": 1.5, "S2": 2.0, "S1": 1.0, "Si": 3, "Si2": 2, "Si1": 1}
+SCALARS = {"S": 1.5, "S2": 2.0, "S1": 1.0, "Si": 3, "Si2": 2, "Si1": 1, "N2": np.float64(2.0), "Ni2": np.int64(2)}
+# operands with a FIXED value and shape (for dunders that special-case operand *values*: Tensor.__pow__ / __ipow__):
+# class -> (container, constant, shape, value)
+FIXED = {
+    "T0=2": ("T", False, (), 2.0), "T0=1": ("T", False, (), 1.0), "T0": ("T", False, (), 1.5),
+    "Tc0=2": ("T", True, (), 2.0), "Tc0=1": ("T", True, (), 1.0),
+    "A0=2": ("A", None, (), 2.0), "A0=1": ("A", None, (), 1.0), "A0": ("A", None, (), 1.5),
+    "T1=2": ("T", False, (1,), 2.0), "T1=1": ("T", False, (1,), 1.0), "A1=2": ("A", None, (1,), 2.0),
+}
 DOMAIN = {"arccosh": (1.2, 3.0)}
 
 
@@ -62,6 +70,10 @@ def make_operand(cls, rng, shape, dom):
     lo, hi = dom
     if cls in SCALARS:
         return SCALARS[cls]
+    if cls in FIXED:
+        kind, const, shp, val = FIXED[cls]
+        arr = np.full(shp, val, dtype=np.float64)
+        return mg.tensor(arr, constant=const) if kind == "T" else arr
     if cls == "T":
         return mg.tensor(_arr(rng, shape, lo, hi, np.float64))
     if cls == "Tc":
@@ -117,7 +129,10 @@ UNOPS = {"negative": ("-", "neg", _operator.neg), "positive": ("+", "pos", _oper
 PROBES_UN = ["T", "Tc", "T32"]
 PROBES_BIN = ["T,T", "T,A", "T,S", "T,Si", "A,T", "S,T", "Si,T", "Tc,Tc", "T,Tc", "T32,T32", "T32,S", "T32,Si", "T32,A", "Tc,S",
               "T,=", "T,Ti", "T32,T"]
-PROBES_POW = PROBES_BIN + ["T,S2", "T,Si2", "T,S1", "T,Si1", "T32,S2", "T32,Si2", "T32,Si1", "Tc,Si2", "S2,T"]
+PROBES_POW = PROBES_BIN + ["T,S2", "T,Si2", "T,S1", "T,Si1", "T32,S2", "T32,Si2", "T32,Si1", "Tc,Si2", "S2,T",
+                           # exponent held in a 0-d / shape-(1,) tensor or array with value exactly 2 or 1 (and 1.5 as control)
+                           "T,T0=2", "T,T0=1", "T,T0", "T,Tc0=2", "T,Tc0=1", "T,A0=2", "T,A0=1", "T,A0", "T,T1=2", "T,T1=1",
+                           "T,A1=2", "Tc,T0=2", "Tc,T0=1", "T32,T0=2", "T32,A0=2", "T,N2", "T,Ni2", "T0=2,T", "A0=2,T"]
 PROBES_MATMUL = ["T,T", "T,A", "A,T", "Tc,Tc", "T,Tc", "T32,T32", "T32,A"]
 
 
@@ -348,8 +363,11 @@ def build_ops(sp: Sp, seed):
     rng = random.Random(f"c11:{sp.op}:{sp.probe}:{seed}")
     classes = sp.probe.split(",")
     shapes = list(sp.shapes)
+    for i, c in enumerate(classes):
+        if c in FIXED:
+            shapes[i] = FIXED[c][2]
     if seed % 2 == 1 and len(classes) == 2 and sp.family not in ("matmul", "concatenate", "stack", "einsum", "where") \
-            and not (classes[0] in SCALARS or classes[1] in SCALARS):
+            and not any(c in SCALARS or c in FIXED for c in classes):
         shapes = [shapes[0], shapes[1][-1:]]  # broadcasting second operand
     ops, leaves = [], []
     for c, s in zip(classes, shapes):
@@ -447,6 +465,8 @@ def _num_milli(v):
 def _arg_of(v, ops, results):
     if isinstance(v, (numbers.Number, np.number)) and not isinstance(v, bool):
         return ("lit", _num_milli(v))  # Python scalars are recorded by value (x**2 vs power(x, 2))
+    if isinstance(v, np.ndarray) and v.ndim == 0 and v.dtype.kind in "fiu":
+        return ("lit", _num_milli(v))  # ... and so are 0-d arrays (Tensor.__pow__ looks at their value)
     for k, r in enumerate(results):
         if v is r:
             return ("result", k)
